@@ -111,6 +111,9 @@ func LoadProgram(repoDir string, patterns []string) (*Program, error) {
 				continue
 			}
 		}
+		if strings.HasSuffix(fn.Name(), "$bound") || strings.HasSuffix(fn.Name(), "$thunk") {
+			continue
+		}
 		n := fnName(fn)
 		if old, ok := P.Funcs[n]; ok && old != fn {
 			continue
